@@ -584,8 +584,21 @@ func (e *eng) Op(f []string, line string, out *hx.Out) {
 			out.P("X stuck %s is not waiting at its hook point %s", a.name, a.point)
 			return
 		}
-		time.Sleep(2 * time.Millisecond) // let it run into the lock (not needed for correctness)
-		out.P("%s forced:%s %s", tag, a.name, e.obs())
+		// the forced actor must block inside the implementation's Lock(): the harness' lock table (built from
+		// the implementation's own lock events, all other actors parked) says the lock is held by another
+		// actor. If it reaches its next hook point instead, the lock did not exclude it.
+		bad := ""
+		select {
+		case p := <-a.report:
+			e.mu.Lock()
+			held := a.awaited()
+			a.eager = false
+			e.notePoint(a, p)
+			e.mu.Unlock()
+			bad = fmt.Sprintf(" !BAD:C05:passed-a-held-lock:%s->%s", held, p)
+		case <-time.After(8 * time.Millisecond):
+		}
+		out.P("%s forced:%s %s%s", tag, a.name, e.obs(), bad)
 	case "step":
 		if e.poisoned {
 			out.P("X not executed: an actor is stuck in this case")
